@@ -16,6 +16,7 @@ def oracleLine (caseLine obsLine : String) : String :=
   | some (.list (.atom "case" :: .atom id :: steps)), some (_, obs) =>
     let unsubAt := steps.map fun s => match s with
       | .list [.atom "unsub", n] => n.asNat
+      | .list [.atom "unsub", n, _] => n.asNat
       | _ => none
     let selfUnsub := steps.any fun s => match s with
       | .list [.atom "sub", _, r] => sexpMentions "unsub" r
